@@ -555,6 +555,14 @@ def cls(body, o, depth=0):
                 return cls_rv(body,d[3]['rv'],depth+1)
             if d and d[0]=='call':
                 return cls_call(body,d[3],depth+1, field=lf['name'])
+        if p.get('proj') and len(p['proj'])==1 and p['proj'][0]['k']=='field' and lf['name'] not in ('0','1'):
+            d=body.single_def(p['l'])
+            for _ in range(4):
+                if d and d[0]=='stmt' and d[3]['k']=='assign' and d[3]['rv']['k']=='use' and d[3]['rv']['op']['k'] in ('copy','move') and not d[3]['rv']['op']['p'].get('proj'):
+                    d=body.single_def(d[3]['rv']['op']['p']['l'])
+            if d and d[0]=='call':
+                cpx=callee_path(d[3]) or ''
+                if cpx.endswith('prepare_insert_slot') and lf['name']=='index': return 'MASKED:prep'
         if any(e['k']=='downcast' for e in p.get('proj',[])):
             d=body.single_def(p['l'])
             if d and d[0]=='call': return cls_call(body,d[3],depth+1,payload=True)
@@ -669,6 +677,38 @@ def _op_ty(body, o):
     return None
 
 
+def _guarded_by_buckets(body, blk, op):
+    """the index operand is a loop counter whose use at block blk is control dependent on `counter < buckets()` (true edge)"""
+    if op["k"] not in ("copy", "move") or op["p"].get("proj"):
+        return False
+    root = op["p"]["l"]
+    d = body.single_def(root)
+    if d and d[0] == "stmt" and d[3]["k"] == "assign" and d[3]["rv"]["k"] == "use" and d[3]["rv"]["op"]["k"] in ("copy", "move") and not d[3]["rv"]["op"]["p"].get("proj"):
+        root = d[3]["rv"]["op"]["p"]["l"]
+    for (bb, sx) in body.control_deps_trans(blk, "all"):
+        t = body.term(bb)
+        if t["k"] != "switch" or t["discr"]["k"] not in ("copy", "move") or t["discr"]["p"].get("proj"):
+            continue
+        dd = body.single_def(t["discr"]["p"]["l"])
+        if not dd or dd[0] != "stmt" or dd[3]["rv"]["k"] != "binop" or dd[3]["rv"]["op"] not in ("Lt", "Gt"):
+            continue
+        a, b = dd[3]["rv"]["a"], dd[3]["rv"]["b"]
+        if dd[3]["rv"]["op"] == "Gt":
+            a, b = b, a
+        def rootof(o):
+            if o["k"] not in ("copy", "move") or o["p"].get("proj"):
+                return None
+            l = o["p"]["l"]
+            d2 = body.single_def(l)
+            if d2 and d2[0] == "stmt" and d2[3]["rv"]["k"] == "use" and d2[3]["rv"]["op"]["k"] in ("copy", "move") and not d2[3]["rv"]["op"]["p"].get("proj"):
+                return d2[3]["rv"]["op"]["p"]["l"]
+            return l
+        zero = [x for v, x in t["targets"] if v == 0]
+        if rootof(a) == root and cls(body, b) == "BUCKETS" and sx not in zero:
+            return True
+    return False
+
+
 def r_index_bounded(F, V):
     """every index handed to a bucket / control-byte accessor in the raw module is provably bounded by
     construction: masked with bucket_mask, a parameter (caller's obligation, checked at the caller),
@@ -692,6 +732,8 @@ def r_index_bounded(F, V):
                     continue
                 c = cls(body, t["args"][q])
                 a = t["args"][q]
+                if not _class_ok(c, W, for_ctrl) and _guarded_by_buckets(body, i, a):
+                    c = "ITER:guarded-by-buckets"
                 if a["k"] in ("copy", "move") and not a["p"].get("proj") and body.locals[a["p"]["l"]]["ty"].get("k") == "adt":
                     # the index travels inside a struct built here: every usize operand of the aggregate must be bounded
                     d = body.single_def(a["p"]["l"])
